@@ -180,7 +180,14 @@ def check_logs(w, rep, tier):
         if ok:
             n = theta_of(r)
             want = cm.ew(r, cm.scalar(cm.pdiv(cm.un("atan", n).scale(4), n)), cm.pmul)
-            verdict_by_branches(rep, "C03.form", "SO3Mrp.log = 4 atan(|r|)/|r| r", L, want, (), w.method_where(Mr, "log")[:2], "MRP log is not 4 atan(|r|) n")
+            # the same logarithm obtained through the quaternion sibling is decided by composition: SO3Quat.from_Mrp keeps
+            # the rotation (C07.preserve) and SO3Quat.log is the principal rotation vector (C03.quat)
+            Qg = w.G("SO3Quat")
+            okq, viaq = guarded(w, rep, "C03.form", "SO3Quat.log(SO3Quat.from_Mrp(r))", lambda: closed(w, w.param(w.call(Qg, "log", w.call(Qg, "from_Mrp", X)))))
+            if okq and mat_equal(L, viaq) and not mat_equal(L, want):
+                rep.ok("C03.form", "SO3Mrp.log = SO3Quat.log(SO3Quat.from_Mrp(r)) (principal rotation vector by composition with C03.quat and C07.preserve)")
+            else:
+                verdict_by_branches(rep, "C03.form", "SO3Mrp.log = 4 atan(|r|)/|r| r", L, want, (), w.method_where(Mr, "log")[:2], "MRP log is not 4 atan(|r|) n")
         # ---- DCM
         D = w.G("SO3Dcm")
         X, dp = w.fresh(D, "R")
